@@ -231,7 +231,8 @@ _MIXIN = (" Derived operations are inherited from collections.abc unless the ove
 _DEFAULTS = " No parameter with a mutable / stateful default object is stored into a field; class-level containers are assigned by the constructor on every path."
 EXTRA5 = {
     "C01": _DEFAULTS + " The feeder thread (whose constructor resets per-call state) is built inside the generator body.",
-    "C02": " The feeder thread is built inside the generator body; the feeder's publication order and send accounting (C01.R2/R3) hold.",
+    "C02": " The feeder thread is built inside the generator body; the feeder's publication order and send accounting (C01.R2/R3) hold."
+           " The pool's __exit__ never waits without bound for room in a bounded work queue for stop orders nobody is left to read.",
     "C03": " Only the replace thread's run() takes items from the replace queue; the feeder's publication order and send accounting hold.",
     "C04": " stop() waits for the replace thread without a timeout.",
     "C05": _DEFAULTS + " range(workers) sentinels are sent only when `workers` processes were started unconditionally.",
